@@ -55,7 +55,24 @@ def check(F, rep, tier):
                     rep.ok("R07.3", "a number too large for u32 is kept verbatim as a text segment", sample=site, nontrivial_key=key + str(bi)); continue
                 if seen_keys[key] > 1: key2 = key      # the same sink reached by several (inlined) parse sites: one finding per sink
                 rep.bad("R07.3", "silent-narrowing:" + key, "a u64 Zerv number is parsed as %s inside the infallible From<Zerv> for PEP440 and written to %s: a value above u32::MAX cannot be refused and is silently dropped, replaced or moved to the local segment" % (ty, sink), site)
-        rep.floor("R07.2", "integer parses on the %s rendering path" % tyname, n, 4)
+        # parses inside closures of iterator pipelines (`.map(|part| part.parse::<u64>())`): same width requirement
+        work = list(mir.closures_in(F, f)); seen_c = set()
+        while work:
+            c = work.pop()
+            if c.path in seen_c: continue
+            seen_c.add(c.path); work += mir.closures_in(F, c)
+            for bi, t in c.calls():
+                if not mir.call_matches(t, (parsers.PARSE,)): continue
+                ty = (t[1].get("targs") or ["?"])[0]
+                if ty not in INT_W: continue
+                n += 1
+                site = "%s bb%d line %s" % (c.where(), bi, c.blocks[bi]["line"])
+                if tyname == "SemVer":
+                    if INT_W[ty] == 64: rep.ok("R07.2", "SemVer rendering parses component text as %s (field width) inside an iterator closure" % ty, sample=site, nontrivial_key=c.path + str(bi))
+                    else: rep.bad("R07.2", "narrowing-parse:SemVer.closure", "SemVer rendering parses a 64-bit component value as %s: larger numbers change position or kind" % ty, site)
+                else:
+                    rep.undecided("R07.3", "narrowing-in-closure:" + c.path.rsplit("::", 2)[-2], "a %s parse inside an iterator closure of the PEP 440 conversion: where its value is written is not followed" % ty, site)
+        rep.floor("R07.2", "integer parses on the %s rendering path" % tyname, n, 3)
     # ---- R07.4 no constant fallback ---------------------------------------------------------------------------------
     for anchor, module in (("<impl std::str::FromStr for crate::version::semver::core::SemVer>::from_str", "crate::version::semver::parser::"),
                            ("<impl std::str::FromStr for crate::version::pep440::core::PEP440>::from_str", "crate::version::pep440::parser::")):
